@@ -171,7 +171,7 @@ def main(tier):
         run.count(kind)
         if m != c:
             run.count("model_vs_code_diff")
-            run.violation("correspondence:%s(%s)" % ("Oid" if kind.startswith(("oid", "reloid")) else "GTime", line.split()[0]),
+            run.violation("correspondence:%s(%s)" % ("Oid" if kind.startswith(("oid", "reloid")) else "CivilTime" if kind.startswith("libc") else "GTime", line.split()[0]),
                           {"what": "model and C disagree", "command_line": line, "model": m, "c": c, "_pending": True})
     for i in (0, len(lines) // 3, 2 * len(lines) // 3, len(lines) - 1):
         run.sample({"cmd": lines[i], "model": mo[i], "c": co[i]})
@@ -245,12 +245,242 @@ def main(tier):
                                    "libc time functions and the TZ database are modelled by proleptic Gregorian arithmetic plus the offset the libc reports"])
 
 
+# ---------------------------------------------------------------- time side
+T_MIN = -62167219200          # 0000-01-01T00:00:00Z
+T_MAX = 253402300800          # 10000-01-01T00:00:00Z
+UT_MIN = -315619200           # 1960-01-01T00:00:00Z
+UT_MAX = 2840140800           # 2060-01-01T00:00:00Z
+
+
+def days_from_civil(y, m, d):
+    """reference day number (oracle side; Python floor division)"""
+    y -= m <= 2
+    era = y // 400
+    yoe = y - era * 400
+    doy = (153 * (m - 3 if m > 2 else m + 9) + 2) // 5 + d - 1
+    doe = yoe * 365 + yoe // 4 - yoe // 100 + doy
+    return era * 146097 + doe - 719468
+
+
+def utc_text(t):
+    """YYYYMMDDHHMMSS of t by Python's own calendar (datetime: years 1..9999)"""
+    import datetime
+    dt = datetime.datetime(1970, 1, 1) + datetime.timedelta(seconds=t)
+    return "%04d%02d%02d%02d%02d%02d" % (dt.year, dt.month, dt.day, dt.hour, dt.minute, dt.second)
+
+
+def gen_times(rng, tier):
+    ts = set()
+    if tier == "thorough":
+        years = list(range(0, 10001))
+    else:
+        years = sorted(set(list(range(0, 10001, 89)) + [0, 1, 2, 99, 100, 400, 1582, 1583, 1752, 1847, 1848, 1883, 1884, 1899, 1900, 1901,
+                                                       1959, 1960, 1961, 1969, 1970, 1971, 1999, 2000, 2001, 2037, 2038, 2039, 2059, 2060,
+                                                       2061, 2100, 2400, 9998, 9999, 10000]))
+    for y in years:
+        b = days_from_civil(y, 1, 1) * 86400
+        ts.update((b - 1, b))
+    for y in (0, 4, 100, 400, 1600, 1900, 1904, 1960, 1972, 2000, 2024, 2056, 2100, 2400, 9996):
+        for (m, d) in ((2, 28), (2, 29), (3, 1)):
+            b = days_from_civil(y, m, d) * 86400      # Feb 29 of a common year = Mar 1
+            ts.update((b, b + 86399))
+    ts.update((-1, 0, 1, -2, 59, 60, 86399, 86400, -86400, -86401))
+    for k in (31, 32, 33, 35):
+        for s in (1, -1):
+            ts.update((s * 2**k - 1, s * 2**k, s * 2**k + 1))
+    # daylight-saving edges (America/New_York, Europe/London, Australia/Lord_Howe, Pacific/Chatham, America/St_Johns)
+    for e in (1678604400, 1699164000, 1679792400, 1698541200, 1696087800, 1680361200, 1695477600, 1680356700, 1678599000, 1699158600):
+        ts.update((e - 1, e, e + 1, e - 1800, e + 1800, e - 3600, e + 3600))
+    n = 150 if tier == "quick" else 6000
+    for _ in range(n):
+        ts.add(rng.range(T_MIN, T_MAX - 1))
+        ts.add(rng.range(UT_MIN, UT_MAX - 1))
+        ts.add(rng.range(0, 2**31))
+    ts.update((T_MIN - 1, T_MIN, T_MAX - 1, T_MAX, UT_MIN - 1, UT_MIN, UT_MAX - 1, UT_MAX))
+    return sorted(ts)
+
+
+FRACS = [(1, 1), (9, 1), (10, 1), (5, 3), (123, 3), (120, 3), (100, 3), (1230, 4), (999999999, 9), (1, 9), (100000000, 9),
+         (123456789, 12), (1234567891, 10), (2147483647, 10), (2147483647, 1), (7, 0), (0, 3), (-5, 2), (5, -2), (99, 2), (100, 2)]
+
+
+def gen_gt_texts(rng, tier):
+    """texts for asn_GT2time_frac / asn_UT2time: every optional part present or
+    absent, each validation edge, and broken variants; returns (text, fields or
+    None); fields = (tm_year, tm_mon, mday, hour, min, sec) for local-time forms"""
+    out = []
+    dates = [(1970, 1, 1), (2000, 2, 29), (1999, 12, 31), (2023, 11, 14), (1, 1, 1), (9999, 12, 31), (0, 1, 1), (1900, 2, 29),
+             (2023, 2, 31), (2023, 0, 10), (2023, 13, 10), (2023, 12, 0), (2023, 12, 32), (1969, 12, 31), (1960, 1, 1), (2059, 12, 31)]
+    hms = [(0, 0, 0), (23, 59, 59), (23, 59, 60), (23, 59, 61), (24, 0, 0), (12, 60, 0), (12, 99, 0), (1, 2, 3), (22, 13, 20)]
+    fracs = ["", ".0", ".5", ",5", ".123", ".000", ".120", ".999999999", ".2147483647", ".21474836470", ".214748364", ".2147483639999",
+             ".", ",", ".1x", ".12345678901234567890"]
+    sufs = ["", "Z", "+00", "-00", "+0000", "-0000", "+0530", "-0330", "+0545", "+1245", "-1200", "+9999", "+05", "-11", "+5", "+053", "+05300",
+            "+05:30", "z", "+", "-", "Z ", "ZZ", "+0a", "+05a0", " "]
+    reps = 400 if tier == "quick" else 20000
+    for _ in range(reps):
+        y, mo, d = rng.choice(dates) if rng.chance(2, 3) else (rng.range(0, 9999), rng.range(1, 12), rng.range(1, 28))
+        h, mi, s = rng.choice(hms) if rng.chance(2, 3) else (rng.range(0, 23), rng.range(0, 59), rng.range(0, 59))
+        level = rng.choice(["h", "m", "s", "s", "f", "f"])
+        txt = "%04d%02d%02d%02d" % (y, mo, d, h)
+        fields = [y - 1900, mo - 1, d, h, 0, 0]
+        if level in ("m", "s", "f"):
+            txt += "%02d" % mi; fields[4] = mi
+        if level in ("s", "f"):
+            txt += "%02d" % s; fields[5] = s
+        if level == "f":
+            txt += rng.choice(fracs)
+        suf = rng.choice(sufs) if rng.chance(3, 4) else ""
+        txt += suf
+        k = rng.below(12)
+        if k == 0 and txt:
+            p = rng.below(len(txt)); txt = txt[:p] + rng.choice("x:/ -+Z.,") + txt[p + 1:]; fields = None
+        elif k == 1:
+            txt = txt[:rng.below(len(txt) + 1)]; fields = None
+        elif k == 2:
+            p = rng.below(len(txt) + 1); txt = txt[:p] + rng.choice("0x:Z+-.,") + txt[p:]; fields = None
+        local = fields is not None and suf == "" and re.match(r"^\d{10}(\d\d(\d\d([.,]\d*)?)?)?$", txt) is not None
+        out.append((txt, tuple(fields) if local else None))
+    for t in ("", "2", "197001010", "1970010100", "19700101000", "197001010000", "1970010100000", "19700101000000", "19700101000000Z",
+              "19700101000000-0000", "19700101000000+0000", "19700101000000.3Z", "19821106210623.3", "19821106210629.3Z",
+              "19691106210827.3-0500", "19821106210629.456", "19691231235959Z", "19691231235958Z", "19700101000000Z\x00",
+              "1969123123595Z", "19700101000059+0001", "19691231235959.5Z", "197001010000-0001", "1970010100Z", "1970010100+0100"):
+        out.append((t, None))
+    return out
+
+
 def time_cases(run, rng, tier, cases, cdrv):
-    pass
+    zones = [z for z in ZONES if os.path.exists(os.path.join("/usr/share/zoneinfo", z))]
+    missing = [z for z in ZONES if z not in zones]
+    run.notes.append("zones used: " + ", ".join(zones) + ("; missing on this host (dropped): " + ", ".join(missing) if missing else ""))
+    if not zones:
+        zones = ["UTC"]
+    ts = gen_times(rng, tier)
+    # the modelled libc directly
+    for t in ts:
+        cases.append(("gmtime %d" % t, "libc_gmtime", t))
+    for _ in range(300 if tier == "quick" else 10000):
+        f = (rng.range(-1900, 8099), rng.range(-30, 40), rng.range(-40, 70), rng.range(-50, 50), rng.range(-100, 160), rng.range(-100000, 100000))
+        cases.append(("timegm %d %d %d %d %d %d" % f, "libc_timegm", f))
+    # offsets the libc reports (C only)
+    pairs = []
+    for t in ts:
+        zs = zones if (tier == "thorough" or T_MIN <= t < T_MAX and (t % 7 == 0 or abs(t) < 2**33)) else [zones[0], rng.choice(zones)]
+        for z in zs:
+            pairs.append((t, z))
+    _, offs, _ = run_lines(cdrv, ["tzoff %d %s" % p for p in pairs], env=SAN_ENV)
+    offs += ["CRASH"] * (len(pairs) - len(offs))
+    for (t, z), off in zip(pairs, offs):
+        if not re.match(r"^-?\d+$", off):
+            run.count("tzoff_" + off)
+            continue
+        off = int(off)
+        run.count("zone_" + z)
+        run.count("gmtoff_nonzero" if off else "gmtoff_zero")
+        if off % 3600:
+            run.count("gmtoff_not_whole_hour")
+        cases.append(("gt_of_time %d 0 0 1 %s %d" % (t, z, off), "gt_of_time", (t, 0, 0, 1, z)))
+        cases.append(("gt_of_time %d 0 0 0 %s %d" % (t, z, off), "gt_of_time_local", (t, 0, 0, 0, z)))
+        cases.append(("ut_of_time %d 1 %s %d" % (t, z, off), "ut_of_time", (t, z)))
+        if rng.chance(1, 4):
+            cases.append(("ut_of_time %d 0 %s %d" % (t, z, off), "ut_of_time_local", (t, z)))
+        for _ in range(2):
+            fv, fd = rng.choice(FRACS) if rng.chance(2, 3) else (rng.below(10 ** rng.range(1, 9)), rng.range(1, 11))
+            force = 0 if rng.chance(1, 5) else 1
+            cases.append(("gt_of_time %d %d %d %d %s %d" % (t, fv, fd, force, z, off),
+                          "gt_of_time" if force else "gt_of_time_local", (t, fv, fd, force, z)))
+    # parser side: arbitrary texts
+    texts = gen_gt_texts(rng, tier)
+    loc = [(txt, f, rng.choice(zones)) for (txt, f) in texts if f is not None]
+    _, lo, _ = run_lines(cdrv, ["mkoff %d %d %d %d %d %d %s" % (f + (z,)) for (txt, f, z) in loc], env=SAN_ENV)
+    lo += ["0"] * (len(loc) - len(lo))
+    lmap = {}
+    for (txt, f, z), o in zip(loc, lo):
+        if re.match(r"^-?\d+$", o):
+            lmap[txt] = (z, int(o))
+    for txt, f in texts:
+        b = txt.encode("latin1")
+        z, lg = lmap.get(txt, ("UTC", 0))
+        if f is None and rng.chance(1, 2):
+            z = rng.choice(zones)       # the zone must not matter when the text carries Z or an offset ...
+            if re.match(r"^\d{10}(\d\d(\d\d([.,]\d*)?)?)?$", txt):
+                z = "UTC"               # ... but does for a local-time text
+        ag = rng.below(2)
+        cases.append(("time_of_gt %s %d %s %d" % (hexs(b), ag, z, lg), "time_of_gt", txt))
+        if rng.chance(1, 3):
+            cases.append(("time_of_gt0 %s %d %s %d" % (hexs(b), ag, z, lg), "time_of_gt0", txt))
+            cases.append(("time_of_gt_prec %s %d %s %d" % (hexs(b), rng.choice([0, 1, 2, 3, 6, 9, 10, 12, 30, -1]), z, lg), "time_of_gt_prec", txt))
+        if len(txt) >= 2 and rng.chance(1, 2):
+            u = txt[2:].encode("latin1")
+            # a local-time UTCTime text is read in another century: only UTC keeps lgmtoff = 0 meaningful
+            cases.append(("time_of_ut %s %d %s %d" % (hexs(u), ag, "UTC" if z != "UTC" and txt in lmap else z, 0 if txt in lmap else lg), "time_of_ut", txt))
+
+
+def frac_expected(fv, fd):
+    """(numerator, digits) of the fraction the text must carry, or None if the
+    arguments denote no fraction (property text is silent on fv >= 10^fd)"""
+    if fv <= 0 or fd <= 0:
+        return (0, 0)
+    if fv >= 10 ** fd:
+        return None
+    if fd > 9:
+        fv //= 10 ** (fd - 9); fd = 9
+    return (fv, fd)
 
 
 def time_oracle(run, cases, co, cdrv):
-    pass
+    q = []
+    for (line, kind, pl), c in zip(cases, co):
+        if kind == "gt_of_time":
+            t, fv, fd, force, z = pl
+            if not (T_MIN <= t < T_MAX):
+                continue                       # outside the four-digit years: no claim
+            fe = frac_expected(fv, fd)
+            if c in ("FAIL", "CRASH", "NOLOCALTIME") or c.startswith("TZMISMATCH"):
+                run.violation("oracle:gt_text", {"what": "no GeneralizedTime produced for a time inside years 0..9999", "command_line": line, "c": c})
+                continue
+            txt = bytes.fromhex(c).decode("latin1")
+            m = re.match(r"^(\d{14})(?:\.(\d*[1-9]))?Z$", txt)
+            okform = m is not None
+            if okform and t >= -62135596800:
+                okform = m.group(1) == utc_text(t)
+            if okform and fe is not None:
+                got = m.group(2) or ""
+                num, dig = fe
+                okform = (int(got or "0") * 10 ** dig == num * 10 ** len(got))
+            run.count("gt_text_checked")
+            if not okform:
+                run.violation("oracle:gt_text", {"what": "forced-GMT GeneralizedTime is not the canonical YYYYMMDDHHMMSS[.f]Z text of t",
+                                                 "command_line": line, "text": txt})
+                continue
+            q.append(("time_of_gt %s 1 %s 0" % (c, z), t, fe, line, "gt"))
+        elif kind == "ut_of_time":
+            t, z = pl
+            if not (UT_MIN <= t < UT_MAX):
+                continue                       # outside UTCTime's two-digit-year window
+            if c in ("FAIL", "CRASH", "NOLOCALTIME") or c.startswith("TZMISMATCH"):
+                run.violation("oracle:ut_text", {"what": "no UTCTime produced for a time inside 1960..2059", "command_line": line, "c": c})
+                continue
+            txt = bytes.fromhex(c).decode("latin1")
+            if not (re.match(r"^\d{12}Z$", txt) and txt[:12] == utc_text(t)[2:]):
+                run.violation("oracle:ut_text", {"what": "forced-GMT UTCTime is not the canonical YYMMDDHHMMSSZ text of t", "command_line": line, "text": txt})
+                continue
+            q.append(("time_of_ut %s 1 %s 0" % (c, z), t, (0, 0), line, "ut"))
+    _, bo, _ = run_lines(cdrv, [x[0] for x in q], env=SAN_ENV)
+    bo += ["CRASH"] * (len(q) - len(bo))
+    for (cl, t, fe, line, which), back in zip(q, bo):
+        run.count(which + "_back")
+        m = re.match(r"^OK (-?\d+) (\d+) (\d+)$", back)
+        good = m is not None and int(m.group(1)) == t
+        if good and fe is not None:
+            num, dig = fe
+            good = int(m.group(2)) * 10 ** dig == num * 10 ** int(m.group(3))
+        if good:
+            continue
+        if t == -1 and back == "FAIL":
+            run.known_finding("C17-time-minus-one", line)
+            continue
+        run.violation("oracle:%s_roundtrip" % which, {"what": "converting t to %s in forced-GMT form and back does not return t (and its fraction)" % ("GeneralizedTime" if which == "gt" else "UTCTime"),
+                                                       "command_line": line, "then": cl, "expected_t": t, "expected_fraction": fe, "c": back})
 
 
 if __name__ == "__main__":
